@@ -55,7 +55,7 @@ ANCHORS = [
     "onnxscript.function_libs.torch_lib.ops.core:aten_slice.func",
     "onnxscript._framework_apis.torch_2_5:get_torchlib_ops",
 ]
-TIMEOUT = 900.0
+TIMEOUT = 1800.0   # per spec (a bundle of strata or of 10-25 exported modules); generous: the box is shared
 
 PER_SPEC = {"quick": 9, "thorough": 3}   # overloads per direct spec
 REPS_TARGET = 200
@@ -75,7 +75,7 @@ def _families():
     return c08_strata.FAMILIES
 
 
-E2E = {"quick": (80, 10), "thorough": (1500, 50)}   # (modules, modules per spec)
+E2E = {"quick": (80, 10), "thorough": (1500, 25)}   # (modules, modules per spec)
 
 
 def cases(tier, seed):
